@@ -526,6 +526,12 @@ def unpackV (env : Env) (t : Ty) : Val → Res Val
     | _ => .ok (.none t)
   | _ => .stuck
 
+/-- CHECK_SIGNATURE: does the signature verify for the key and the message (the verification function is a parameter:
+`env.hashes.checkSig`) -/
+def checkSignatureV (env : Env) : Val → Val → Val → Res Val
+  | .atom .key k, .atom .signature s, .bytes m => .ok (.bool (env.hashes.checkSig k s m))
+  | _, _, _ => .stuck
+
 /-- **extension 2, rules of the form `i / a : S ⇒ r : S`**.  `NEVER` has no rule (there is no value of type `never`). -/
 def unV (env : Env) (i : Instr) (a : Val) : Res Val :=
   match i with
@@ -547,6 +553,8 @@ def stepExt (env : Env) : Instr → List Val → Res (List Val)
   | .SELF ep t, st => .ok (.contract t (normAddr (env.self ++ 37 :: ep)) :: st)
   | .TRANSFER_TOKENS, a :: b :: c :: st => (transferTokensV env a b c).bind fun r => .ok (r :: st)
   | .TRANSFER_TOKENS, _ => .stuck
+  | .CHECK_SIGNATURE, a :: b :: c :: st => (checkSignatureV env a b c).bind fun r => .ok (r :: st)
+  | .CHECK_SIGNATURE, _ => .stuck
   | i, a :: st => (unV env i a).bind fun r => .ok (r :: st)
   | _, [] => .stuck
 
